@@ -7,10 +7,12 @@ import (
 	"strings"
 
 	schema "github.com/jsightapi/jsight-schema-core"
+	"github.com/jsightapi/jsight-schema-core/kit"
 	"github.com/jsightapi/jsight-schema-core/notations/jschema"
 	"github.com/jsightapi/jsight-schema-core/notations/jschema/ischema"
 
 	"github.com/jsightapi/jsight-api-core/catalog"
+	"github.com/jsightapi/jsight-api-core/directive"
 	"github.com/jsightapi/jsight-api-core/jerr"
 )
 
@@ -61,8 +63,9 @@ func (core *JApiCore) collectPiecesOfPathVariables() *jerr.JApiError {
 
 			if defined {
 				core.piecesOfPathVariables[pp] = PieceOfPathVariable{
-					node:  paramSchema,
-					types: types,
+					node:          paramSchema,
+					types:         types,
+					pathDirective: &core.rawPathVariables[i].pathDirective,
 				}
 				delete(schemaProps, pp.parameter)
 			} else if !registered {
@@ -93,7 +96,15 @@ func (core *JApiCore) setPathVariablesToCatalog() *jerr.JApiError {
 					}
 				}
 				if b.Len() != 0 {
-					hi.SetPathVariables(b.Build())
+					pv := b.Build()
+					// The schema assembled from the pieces is serialised later; a schema that does not compile
+					// (an example that violates its rule, for instance) must be rejected now, not by ToJson.
+					if err := pv.Schema.Check(); err != nil {
+						if je := core.pathVariablesError(pp, err); je != nil {
+							return nil, je
+						}
+					}
+					hi.SetPathVariables(pv)
 				}
 			}
 			return v, nil
@@ -104,6 +115,36 @@ func (core *JApiCore) setPathVariablesToCatalog() *jerr.JApiError {
 	}
 
 	return nil
+}
+
+// pathVariablesError locates an error of the schema assembled for the path parameters pp at the Path directive
+// that defines the offending parameter (the first one whose piece does not compile on its own).
+func (core *JApiCore) pathVariablesError(pp []PathParameter, err error) *jerr.JApiError {
+	var d *directive.Directive
+	for _, p := range pp {
+		piece, ok := core.piecesOfPathVariables[p]
+		if !ok || piece.pathDirective == nil {
+			continue
+		}
+		if d == nil {
+			d = piece.pathDirective
+		}
+		b := catalog.NewPathVariablesBuilder(core.catalog.UserTypes)
+		b.AddProperty(p.parameter, piece.node.Copy(), piece.types)
+		if pieceErr := b.Build().Schema.Check(); pieceErr != nil {
+			d, err = piece.pathDirective, pieceErr
+			break
+		}
+	}
+	if d == nil {
+		return nil
+	}
+	msg := err.Error()
+	var e kit.Error
+	if errors.As(err, &e) {
+		msg = e.Message()
+	}
+	return d.KeywordError(msg)
 }
 
 func (core *JApiCore) checkPathSchema(s *jschema.JSchema) error {
